@@ -7,7 +7,10 @@ Record case := mk {
   c_script : item;
   c_names : list string;
   c_state : result coll;                      (* dump of the real Collection tree *)
-  c_obs : list (result (nat * tree))          (* per name: (task id, configuration) *)
+  c_obs : list (result (nat * tree));         (* per name: (task id, configuration) *)
+  c_body : list (result (nat * tree))         (* per name: what the task body saw as its
+                                                 context's config when the name was executed
+                                                 (Executor, empty Config): (task id, deep view) *)
 }.
 
 Definition obs_equiv (a b : result (nat * tree)) : bool :=
@@ -28,7 +31,9 @@ Definition corr (c : case) : bool :=
   | Err e1, Err e2 => err_eqb e1 e2
   | Ok m, Ok s =>
       coll_eqb m s &&
-      list_eqb obs_equiv (map (model_obs m) (c_names c)) (c_obs c)
+      list_eqb obs_equiv (map (model_obs m) (c_names c)) (c_obs c) &&
+      (* with an otherwise empty Config the body's view is the collection level *)
+      list_eqb obs_equiv (map (model_obs m) (c_names c)) (c_body c)
   | _, _ => false
   end.
 
@@ -42,6 +47,8 @@ Fixpoint all2 {A B} (f : A -> B -> bool) (l1 : list A) (l2 : list B) : bool :=
 (** Judged against the tree the implementation actually built. *)
 Definition spec (c : case) : bool :=
   match c_state c with
-  | Ok s => all2 (spec_ok s) (c_names c) (c_obs c)
+  | Ok s => (if ns_wf s then cfg_match (c_script c) s else true) &&
+            all2 (spec_ok s) (c_names c) (c_obs c) && all2 (spec_ok s) (c_names c) (c_body c) &&
+            spelling_invariant (c_names c) (c_obs c) && spelling_invariant (c_names c) (c_body c)
   | Err _ => true
   end.
